@@ -138,6 +138,38 @@ func TestC07(t *testing.T) {
 	ev.Check(t, "c07_entropy", ev.N(48000, 600000), func(t *rapid.T) c07Case {
 		return c07Case{gen.CharSpec(t, gen.CharOpts{MaxLen: 64, MaxReq: 4, LongTail: 4000})}
 	}, c07WithSiblings)
+	// alphabets of several hundred characters with many small required sets and a
+	// length near their number: the count is a tiny fraction of |alphabet|^Length
+	ev.Check(t, "c07_wide_alphabet", ev.N(320, 3200), func(t *rapid.T) c07Case {
+		base := rapid.SampledFrom([]int{0x4E00, 0x0400, 0x3041, 0xAC00}).Draw(t, "block")
+		n := rapid.IntRange(120, 600).Draw(t, "alphabet_size")
+		ab := make([]rune, n)
+		for i := range ab {
+			ab[i] = rune(base + i)
+		}
+		c := oracle.CharSpec{AllowChars: string(ab)}
+		k := rapid.IntRange(3, 8).Draw(t, "nsets")
+		for i := 0; i < k; i++ {
+			sz := rapid.IntRange(1, 3).Draw(t, "setsize")
+			s := ""
+			for j := 0; j < sz; j++ {
+				s += string(ab[rapid.IntRange(0, n-1).Draw(t, "member")])
+			}
+			c.RequireSets = append(c.RequireSets, s)
+		}
+		c.Length = k + rapid.IntRange(0, 3).Draw(t, "extra_length")
+		return c07Case{c}
+	}, c07Run)
+	if ev.Thorough() {
+		// beyond the stated range of 8 required sets: 13 singleton sets
+		ev.Check(t, "c07_thirteen_sets", 1, func(t *rapid.T) c07Case {
+			c := oracle.CharSpec{Length: rapid.IntRange(14, 18).Draw(t, "length"), Allow: oracle.Digits}
+			for i := 0; i < 13; i++ {
+				c.RequireSets = append(c.RequireSets, string(rune('a'+i)))
+			}
+			return c07Case{c}
+		}, c07Run)
+	}
 	ev.Check(t, "c07_many_sets", ev.N(160, 1600), func(t *rapid.T) c07Case {
 		c := gen.CharSpec(t, gen.CharOpts{MaxLen: 40, MaxReq: 8, NoHiBits: true})
 		c.Require = 0
